@@ -1,30 +1,9 @@
 """Known-finding classifiers for C12 (std.format).  Each recognises one defect by its observable.
 
-The three classifiers of round 1 (`c12_render_integer_saturates_at_i64`,
+No open finding.  The three classifiers of round 1 (`c12_render_integer_saturates_at_i64`,
 `c12_char_of_negative_number_is_nul`, `c12_float_precision_65535_overflows_u16`) were retired in
-round 2: the defects are repaired in the repository (`fix:` commits, listed as `fixed` entries in
-known_findings.jsonl) and the Stmt/counterexample/partial triples became the full theorems
-`int_conv_full`, `char_conv_spec` and `float_precision_limit` of Props/C12.lean.
+round 2 and `c12_float_digits_inexact_beyond_2_53` in round 5: the defects are repaired in the
+repository (`fix:` commits, listed as `fixed` entries in known_findings.jsonl) and the
+Stmt/counterexample/partial triples became the full theorems `int_conv_full`, `char_conv_spec`,
+`float_precision_limit` and `float_conv_full` of Props/C12.lean.
 """
-
-
-def c12_float_digits_inexact_beyond_2_53(op, impl, model, args):
-    """render_float generates the decimal digits in double arithmetic (`|v| * 10^precision + 0.5`,
-    `floor`, `%`): once |v| * 10^precision reaches 2^53 the product is rounded and the digits after
-    the 16th/17th significant one are noise ("%f" % 1e21 prints ...000.555072 where the exact
-    expansion is ...000.000000).  The Lean reference takes the digits as an oracle, so this is only
-    observable against CPython (exact digits).  Matches: the CPython stage marked the case as
-    beyond 2^53, both sides produced text, the texts have the same length and agree on the first
-    15 significant digits."""
-    if not impl.get("beyond_2_53") or not isinstance(impl.get("ok"), list) or not isinstance(impl.get("cpython"), str):
-        return False
-    got, want = "".join(chr(c) for c in impl["ok"]), impl["cpython"]
-    if len(got) != len(want):
-        return False
-    dg = [c for c in got if c.isdigit()]
-    dw = [c for c in want if c.isdigit()]
-    while dg and dw and dg[0] == "0" and dw[0] == "0":
-        dg, dw = dg[1:], dw[1:]
-    if dg[:15] != dw[:15]:
-        return False
-    return [c for c in got if not c.isdigit()] == [c for c in want if not c.isdigit()]
